@@ -407,7 +407,41 @@ def dags(rng, tier):
     out.append(({"T": {"type": "record", "name": "T", "fields": [{"name": "u", "type": ["null", "U", "V"]}, {"name": "v", "type": {"type": "map", "values": "V"}}]},
                  "U": {"type": "record", "name": "U", "fields": [{"name": "v", "type": "V"}]},
                  "V": {"type": "enum", "name": "V", "symbols": ["K", "L"]}}, "T"))
+    for _ in range(12 if tier == "quick" else 300):
+        out.append(random_dag(rng))
     return out
+
+
+def random_dag(rng):
+    """a random acyclic dependency graph of 2..7 named types over two namespaces: type i refers only to types
+    j > i (so the graph is acyclic), from fields, arrays, maps and unions, by full name or -- inside the same
+    namespace -- by bare name; leaves are enums / fixed / records without references; several types are used
+    from more than one place and depth.  Every type is reachable from type 0 (the top)."""
+    n = rng.randrange(2, 8)
+    nss = [rng.choice(["g", "h.k"]) for _ in range(n)]
+    names = [f"{nss[i]}.T{i}" for i in range(n)]
+    types = {}
+    for i in reversed(range(n)):
+        later = list(range(i + 1, n))
+        kind = "record" if later and (i == 0 or rng.random() < 0.75) else rng.choice(["enum", "fixed", "record"])
+        if kind == "enum":
+            types[names[i]] = {"type": "enum", "name": names[i], "symbols": ["S0", "S1"]}
+            continue
+        if kind == "fixed":
+            types[names[i]] = {"type": "fixed", "name": f"T{i}", "namespace": nss[i], "size": rng.randrange(1, 4)}
+            continue
+        fields = [{"name": "p", "type": rng.choice(["int", "string"])}]
+        # make sure i+1 is referenced by somebody at or before i (reachability), plus random further references
+        targets = ([i + 1] if later else []) + [j for j in later if rng.random() < 0.4]
+        for k, j in enumerate(targets):
+            ref = names[j] if (nss[j] != nss[i] or rng.random() < 0.5) else f"T{j}"
+            shape = rng.choice(["plain", "array", "map", "union"])
+            ft = {"plain": ref, "array": {"type": "array", "items": ref}, "map": {"type": "map", "values": ref}, "union": ["null", ref]}[shape]
+            fields.append({"name": f"f{k}", "type": ft})
+        spell = rng.random() < 0.5
+        types[names[i]] = ({"type": "record", "name": names[i], "fields": fields} if spell
+                           else {"type": "record", "name": f"T{i}", "namespace": nss[i], "fields": fields})
+    return types, names[0]
 
 
 def inline(types, top):
@@ -565,7 +599,7 @@ def run_c20(tier, seed):
             continue
         if _requires_itself(p, ns):
             continue
-        for n in (0, 1, 3):
+        for n in ((0, 1, 3) if tier == "quick" else (0, 1, 3, 2, 5, 1, 1, 1)):
             random.seed(rng.randrange(10 ** 9))
             case = {"schema": short(raw), "n": n}
             res.case("count_and_conformance", (short(raw, 1200), n), sample=case)
